@@ -24,13 +24,16 @@ for P_, t in tabs.items():
         for x in u.get('enforce', []) + u.get('verified_inline', []):
             for w in re.findall(r'[A-Za-z_]\w+', x): names.add(w)
         umain[u['name']] = set().union(*[fdef.get(n, set()) for n in names]) if names else set()
-ufiles, usecs, uhome = {}, {}, {}
+ufiles, usecs, uhome, uheavy = {}, {}, {}, {}
 for f in glob.glob(V + '/evidence/C*.json'):
     ev = json.load(open(f)); P = ev['property_id']
     own = set(u['name'] for u in tabs[P]['units'])
     for u in ev['coverage']['units']:
         if u['unit'] in own:
             ufiles[u['unit']] = set('src/' + x.split('@', 1)[1] for x in u.get('real_functions', []) if '@' in x)
+            # header files count only through functions that carry a real share of the unit's obligations (>= 4):
+            # one-line accessors of abti_*.h are pulled into every unit
+            uheavy[u['unit']] = set('src/' + k.split('@', 1)[1] for k, n in u.get('real_function_obligations', {}).items() if n >= 4)
             usecs[u['unit']] = sum(u['seconds'].values()); uhome[u['unit']] = P
 def included(P):
     s = set(u['name'] for u in tabs[P]['units'])
@@ -43,7 +46,7 @@ for P in sorted(props):
     anchors = set(props[P]['anchors']['files']); have = included(P); cand = []
     for u, fs in ufiles.items():
         if u in have or uhome[u] == P: continue
-        hit = (umain.get(u, set()) & anchors) | set(f for f in (fs & anchors) if f.endswith('.c'))  # main functions, or any real function of a .c anchor file
+        hit = (umain.get(u, set()) & anchors) | set(f for f in (fs & anchors) if f.endswith('.c')) | (uheavy.get(u, set()) & anchors)  # main functions, any real function of a .c anchor file, or a header function with >= 4 obligations
         # headers pulled in everywhere carry obligations in many units: require a non-trivial overlap
         if hit: cand.append((u, uhome[u], round(usecs[u]), sorted(hit)))
     if cand:
